@@ -86,6 +86,10 @@ pub use crate::multistream_select::{
     protocol::{HeaderLine, Message, Protocol, ProtocolError, PROTO_MULTISTREAM_1_0},
 };
 
+/// Maximum frame size accepted by the length-delimited negotiation codec (verification seam).
+#[cfg(litep2p_verif)]
+pub const VERIF_MAX_FRAME_SIZE: u16 = length_delimited::MAX_FRAME_SIZE;
+
 /// Supported multistream-select versions.
 #[derive(Clone, Copy, Debug, PartialEq, Eq)]
 pub enum Version {
